@@ -549,6 +549,14 @@ func (c *GroupCoordinator) deleteGroupState(groupID string) {
 	c.mu.Unlock()
 }
 
+// ForgetGroup drops the in-memory copy of a group so that the next request
+// reloads it from the metadata store. The broker calls it when it becomes the
+// group's coordinator again: while another broker coordinated the group, the
+// copy kept here went stale (older generation, members, assignments).
+func (c *GroupCoordinator) ForgetGroup(groupID string) {
+	c.deleteGroupState(groupID)
+}
+
 func (c *GroupCoordinator) ensureGroup(ctx context.Context, groupID string) (*groupState, error) {
 	if state, ok := c.groups[groupID]; ok {
 		return state, nil
